@@ -373,3 +373,51 @@ func TestC19Spellings(t *testing.T) {
 		}
 	}, checkC19)
 }
+
+// TestC19Defaults: a parameter that is not given is the documented default (CLI help / readme: protocol udp, port
+// 33434, 3 traceroute queries, 50 end-to-end probes, last TTL 30, timeout 3000 ms, TCP method syn, IPv4).
+func TestC19Defaults(t *testing.T) {
+	rec := NewRecorder("C19", "C19Defaults", "enumeration through the HTTP handler: every query key left out in turn (and all of them except the target), for udp / icmp / tcp, the other parameters small; oracle of TestC19 with the documented default in place of the missing parameter (protocol udp, port 33434, 3 runs, 50 end-to-end probes, last TTL 30, method syn); exhaustive over that product")
+	rec.Exhaustive = true
+	RunCases(t, rec, func(yield func(*Request) bool) {
+		keys := []string{"port", "protocol", "max-ttl", "timeout", "tcp-method", "traceroute-queries", "e2e-queries", "ipv6", "reverse-dns", "source-public-ip", "skip-private-hops"}
+		sets := [][]string{keys}
+		for _, k := range keys {
+			sets = append(sets, []string{k})
+		}
+		for _, proto := range []string{"udp", "icmp", "tcp"} {
+			for _, om := range sets {
+				rq := &Request{HTTP: true, Scripts: []FlowScript{{Default: HopSpec{Silent: true}}}}
+				rq.P = ReqParams{Protocol: proto, TCPMethod: "syn", MinTTL: 1, MaxTTL: 3, Port: 443, Queries: 1, E2e: 1, TimeoutMs: 5, DelayMs: 50, Hostname: "93.184.216.34", Omit: om}
+				skip := false
+				for _, k := range om {
+					switch k {
+					case "port":
+						rq.P.Port = 33434
+					case "protocol":
+						if proto != "udp" {
+							skip = len(om) == 1 // the default protocol is one protocol: covered once
+						}
+						rq.P.Protocol = "udp"
+					case "max-ttl":
+						rq.P.MaxTTL = 30
+					case "timeout":
+						rq.P.TimeoutMs = 3000
+					case "tcp-method":
+						rq.P.TCPMethod = "syn"
+					case "traceroute-queries":
+						rq.P.Queries = 3
+					case "e2e-queries":
+						rq.P.E2e = 50
+					}
+				}
+				if skip || (len(om) > 1 && proto != "udp") {
+					continue
+				}
+				if !yield(rq) {
+					return
+				}
+			}
+		}
+	}, checkC19)
+}
